@@ -15,6 +15,7 @@ from . import AnalysisError
 
 PKG = "aspire"
 _PARSE_CACHE: dict = {}
+_NORM_CACHE: dict = {}
 MIN_MODULES = 15
 
 
@@ -258,6 +259,19 @@ class Repo:
             raise AnalysisError(
                 f"only {len(self.modules)} modules parsed under {base}; expected >= {MIN_MODULES}"
             )
+        # extract-method normalisation: new private helpers are inlined back into their callers (aspire_sa/inline.py)
+        from . import inline as _inline
+        nk = tuple(sorted((k, hash(m.source)) for k, m in self.modules.items()))
+        res = _NORM_CACHE.get(nk)
+        if res is None:
+            res = _inline.normalise({k: m.tree for k, m in self.modules.items()})
+            _NORM_CACHE[nk] = res
+        changed, self.inlined_helpers = res
+        # helpers whose every use was inlined are judged inside their callers
+        self.inlined_idents = {f"{mod}:{cn}.{h}" for mod, cn, _caller, _n, used in self.inlined_helpers for h in used}
+        for k, tree in changed.items():
+            m = self.modules[k]
+            self.modules[k] = ModuleInfo(m.name, m.relpath, m.path, m.source, tree)
         for m in self.modules.values():
             self._index_module(m)
 
